@@ -43,10 +43,23 @@ template <int K> long to_long(const Ext<K>& e) { return e.v; }
 template <class E, typename std::enable_if<std::is_enum<E>::value, int>::type = 0>
 long to_long(E e) { return static_cast<long>(e); }
 
+// pointer-typed externs (`::vt::Cell*`, `const ::vt::Cell*`): the value travels as the pointee's number;
+// pointees live in a node-stable map (not used by the threaded programs)
+struct Cell { long v; };
+inline const Cell* cell_of(long v)
+{
+    static std::map<long, Cell>* cells = new std::map<long, Cell>;
+    Cell& c = (*cells)[v];
+    c.v = v;
+    return &c;
+}
+inline long to_long(const Cell* p) { return p ? p->v : -1; }
+
 template <class T>
 T from_long(long v)
 {
     if constexpr (is_ext<T>::value) return T(v);
+    else if constexpr (std::is_pointer<T>::value) return const_cast<T>(cell_of(v));
     else return static_cast<T>(v);
 }
 
@@ -127,15 +140,31 @@ inline bool arbiter_hook(const Who& w, const char* ev, long& reply)
     return false;
 }
 
+// Reactions of the mock component (script op `react`): while it handles the in-event <port>.<ev> the
+// component raises an out-event - synchronously, before the in-event returns - as Dezyne components do.
+// key "<port> <ev>"; reset by the `world` op.
+inline std::map<std::string, std::function<void()>> g_reactions;
+
+inline void react_hook(const Who& w, const char* ev)
+{
+    if (w.side[0] != 'c' || g_reactions.empty()) return;
+    auto it = g_reactions.find(w.port + " " + ev);
+    if (it == g_reactions.end()) return;
+    const std::function<void()> f = it->second;
+    f();
+}
+
 // called by the handler of an event without reply value, after its obs line
 inline void void_event(const Who& w, const char* ev)
 {
+    react_hook(w, ev);
     long ignored = 0;
     arbiter_hook(w, ev, ignored);
 }
 
 inline long reply_of(const Who& w, const char* ev)
 {
+    react_hook(w, ev);
     long decided = 0;
     if (arbiter_hook(w, ev, decided)) return decided;
 #ifdef VT_THREADED
